@@ -6,6 +6,7 @@ TOK = re.compile(r'''
   | (?P<str>c?"(?:[^"\\]|\\.)*")
   | (?P<lid>%(?:"(?:[^"\\]|\\.)*"|[-\w.$]+))
   | (?P<gid>@(?:"(?:[^"\\]|\\.)*"|[-\w.$]+))
+  | (?P<comdat>\$(?:"(?:[^"\\]|\\.)*"|[-\w.$]+))
   | (?P<md>![-\w.]*)
   | (?P<attr>\#\d+)
   | (?P<cmt>;.*)
@@ -22,7 +23,7 @@ def tokenize(s):
         m = TOK.match(s, i)
         if not m: raise SyntaxError('tok %r' % s[i:i+40])
         k = m.lastgroup; i = m.end()
-        if k in ('ws', 'cmt'): continue
+        if k in ('ws', 'cmt', 'comdat'): continue
         out.append((k, m.group()))
     return out
 
